@@ -24,6 +24,7 @@ GATE_MOD = 'cirbo.core.circuit.gate'
 class Model:
     def __init__(self, repo: Repo, den: Denotations):
         self.repo = repo
+        self.den = den
         ov = gate_overrides(den)
         ov[f'{GATE_MOD}.Gate'] = FakeGate
         self.types = {t.var: t for t in ov.values() if isinstance(t, GateTypeVal)}
@@ -54,6 +55,7 @@ class Model:
     def call(self, c: Instance, method: str, *args, **kwargs):
         """Fold `Circuit.<method>` over the model; returns (result, error)."""
         self.interp.steps = 0
+        self.den.interp.steps = 0
         fn = self.mod.func(f'Circuit.{method}')
         try:
             return RepoFunc(self.interp, self.mod, fn, bound_self=c)(*args, **kwargs), None
